@@ -14,6 +14,7 @@ CFG = {
         "file contents other than store files are uninterpreted; byte identity is only demanded between two runs of the implementation itself (FRESH)",
     ],
     "assumptions": [
+        "after a save that fails late (after the wipe) on both sides, model and implementation are compared on the outcome class and on everything outside the target only: which files had been written before the failure depends on the write order of the stores, which no statement of C09 fixes (the spec rules, `frame` included, are evaluated on every outcome as before)",
         "store keys and contents.plist values with `..` escape the target: recorded findings (rejecting them is a policy decision with new error variants)",
         "layer directories named like top-level files (a crafted layercontents.plist naming `data` or `fontinfo.plist`) are not generated",
     ],
